@@ -331,3 +331,9 @@ def run(cx):
     cx.guard(r2_r3_r4)
     cx.guard(r4_keyword)
     cx.guard(r4_substitution_uses_lookup)
+    # necessary conditions shared with C08/C10: "every occurrence gets the same substitute" needs the substitution to cover every occurrence
+    # on the line (C08.R6), and "the mapping pairs originals that occurred" needs each obfuscator to see the text before a later stage
+    # (keyword replacement) rewrites it, i.e. the fixed stage order (C10.R1)
+    from . import c08, c10
+    cx.borrow(c08.r6_global_substitution, "C08.R6", "C09.R5", "every occurrence of a recognised original on a line is replaced (C08.R6), in the fixed stage order (C10.R1)")
+    cx.borrow(c10.r1_hash_free, "C10.R1", "C09.R5", "every occurrence of a recognised original on a line is replaced (C08.R6), in the fixed stage order (C10.R1)")
